@@ -919,7 +919,8 @@ class Mha:
     fuse_sdpa, then fuse_mha1 (with past) and fuse_mha2 (without), as fuse_xformers orders them."""
 
     name = "mha"
-    ops = {"MultiHeadAttention"}
+    ops = {"MultiHeadAttention", "RotaryEmbedding"}
+    key_op = "MultiHeadAttention"
 
     @staticmethod
     def gen(rng):
@@ -934,7 +935,7 @@ class Mha:
                                                                   "B,H,S,St", "1,1,1,St", "1,St", "St", "1,H,1,St"]),
                 "scale": rng.choice(["default", "default", "custom", "none"]), "sym": rng.random() < 0.25,
                 "q_perm": rng.choice([[0, 2, 1, 3]] * 9 + [[0, 1, 2, 3]]), "kH": rng.choice(["same"] * 8 + ["one"]),
-                "dt": "f32"}
+                "dt": "f32", "rotary": rng.random() < 0.3, "rot_il": rng.choice([None, None, 1])}
 
     @staticmethod
     def build(c):
@@ -952,8 +953,25 @@ class Mha:
         v4 = g.op("Reshape", v, shp([0, 0, H, Dh]), name="v4")
         vh = g.op("Transpose", v4, perm=[0, 2, 1, 3])
         St = Skv + P
-        if c["key_t"] or c["past"]:
+        rot = c.get("rotary") and Dh % 2 == 0
+
+        def rope(x4, name, seq):
+            import onnx.helper as oh_
+
+            o = g.op("RotaryEmbedding", x4, "position_ids", "cos", "sin", domain="com.microsoft", name=name,
+                     interleaved=c.get("rot_il"))
+            g.vinfo.append(oh_.make_tensor_value_info(name, DT["f32"], [Bs, H, seq, Dh]))
+            return o
+
+        if rot:
+            g.inp("position_ids", "i64", [Bs, S])
+            g.inp("cos", "f32", [S + 4, Dh // 2])
+            g.inp("sin", "f32", [S + 4, Dh // 2])
+            qh = rope(qh, "q_rope", S)
+        if c["key_t"] or c["past"] or rot:
             kh = g.op("Transpose", k4, perm=[0, 2, 1, 3])
+            if rot:
+                kh = rope(kh, "k_rope", Skv)
             if c["past"]:
                 pk = g.inp("past_key", "f32", [Bs, H, P, Dh])
                 pv = g.inp("past_value", "f32", [Bs, H, P, Dh])
@@ -982,12 +1000,15 @@ class Mha:
 
     @staticmethod
     def valid(c):
+        if c.get("rotary") and c["Skv"] != c["S"]:
+            return False  # one position_ids tensor serves query and key
         return c["q_perm"] == [0, 2, 1, 3] or c["S"] == c["H"]
 
     @staticmethod
     def line(c, shapes=None):
         sh = shapes or {}
-        parts = ["mha", f"past={b(c['past'])}", f"key_t={b(c['key_t'] or c['past'])}",
+        rot = c.get("rotary") and c["Dh"] % 2 == 0
+        parts = ["mha", f"past={b(c['past'])}", f"key_t={b(c['key_t'] or c['past'] or rot)}", f"rotary={b(rot)}",
                  f"q_perm_ok={b(c['q_perm'] == [0, 2, 1, 3])}",
                  "scale=" + {"default": "none", "custom": fbits(f32(0.3)), "none": fbits(1.0)}[c["scale"]]]
         for n in ("query", "key", "value", "q4", "past_key", "past_value", "mask"):
@@ -1024,6 +1045,10 @@ class Mha:
         if c["mask"] != "none":
             env = {"B": B, "H": H, "S": S, "St": Skv + P, "1": 1}
             f["mask"] = rand_arr(rng, [env[t] for t in c["mask"].split(",")], "f32")
+        if c.get("rotary"):
+            f["position_ids"] = np.tile(np.arange(S, dtype=np.int64), (B, 1))
+            f["cos"] = rng.random((S + 4, max(Dh // 2, 1))).astype(np.float32)
+            f["sin"] = rng.random((S + 4, max(Dh // 2, 1))).astype(np.float32)
         return f
 
     @staticmethod
@@ -1236,4 +1261,279 @@ class Attn:
         return "f32"
 
 
-FAMILIES = {f.name: f for f in [Rms, Skip, Gelu, BiasGelu, Softmax, Fmm, Rope, Sdpa, Mha, I2g, Attn]}
+# =========================================================================== GroupQueryAttention (repo builder, own sizes)
+
+
+class Gqa:
+    """The source model of `gqa_test.GQAFusionTest` (Phi-style GQA with rotary, past, causal mask) built by the
+    repo's own script with OUR sizes, plus near-misses made by editing the proto; optimize → fuse_sdpa → fuse_gqa."""
+
+    name = "gqa"
+    ops = {"GroupQueryAttention"}
+
+    @staticmethod
+    def gen(rng):
+        Hkv = rng.choice([1, 2, 3])
+        G_ = rng.choice([1, 2, 4])
+        return {"fam": "gqa", "S": rng.choice([1, 2, 4]), "P": rng.choice([1, 3, 8]), "Dh": rng.choice([16, 16, 32, 8, 4]),
+                "H": Hkv * G_, "Hkv": Hkv,
+                "miss": rng.choice(["none"] * 6 + ["il_q", "il_both", "past_B", "k_S", "mask_op", "no_q4"])}
+
+    @staticmethod
+    def build(c):
+        import onnx
+
+        from onnxscript import FLOAT
+        from onnxscript.rewriter.ort_fusions import gqa_test as T
+
+        S, P, Dh, H, Hkv = c["S"], c["P"], c["Dh"], c["H"], c["Hkv"]
+        t = T.GQAFusionTest("test_fusion")
+        t.batchsize, t.seqlen, t.kv_seqlen, t.past_seqlen, t.head_size, t.num_heads, t.kv_num_heads = 1, S, S, P, Dh, H, Hkv
+        t.hidden_size, t.kv_hidden_size, t.num_groups, t.total_seqlen = Dh * H, Dh * Hkv, H // Hkv, S + P
+        D, Dkv = Dh * H, Dh * Hkv
+        pB = 1 if c["miss"] == "past_B" else "B"
+        kS = "S2" if c["miss"] == "k_S" else "S"
+        it = (FLOAT["B", "S", D], FLOAT["B", kS, Dkv], FLOAT["B", "S", Dkv], FLOAT[pB, Hkv, "P", Dh],
+              FLOAT["B", Hkv, "P", Dh], FLOAT["max_seqlen", Dh // 2], FLOAT["max_seqlen", Dh // 2])
+        ot = (FLOAT["B", "S", D], FLOAT["B", Hkv, "T", Dh], FLOAT["B", Hkv, "T", Dh])
+        mp = t.source_model_script().to_model_proto(input_types=it, output_types=ot)
+        vi = lambda n, sh: onnx.helper.make_tensor_value_info(n, onnx.TensorProto.FLOAT, sh)
+        infos = [vi("query_BHSDh_rope", ["B", H, S, Dh]), vi("key_BHkvSDh_rope", ["B", Hkv, S, Dh]),
+                 vi("key_BHSDh", ["B", H, S + P, Dh]), vi("key_BSHkvDh", ["B", S, Hkv, Dh]),
+                 vi("key_transposed", ["B", H, Dh, S + P]), vi("value_BHSDh", ["B", H, S + P, Dh])]
+        infos.append(vi("query_BSHDh", ["B", S, "Hq" if c["miss"] == "no_q4" else H, Dh]))
+        mp.graph.value_info.extend(infos)
+        for n in mp.graph.node:
+            if n.op_type == "RotaryEmbedding":
+                isq = n.output[0] == "query_BHSDh_rope"
+                if c["miss"] == "il_both" or (c["miss"] == "il_q" and isq):
+                    n.attribute.append(onnx.helper.make_attribute("interleaved", 1))
+            if c["miss"] == "mask_op" and n.op_type == "Greater":
+                n.op_type = "GreaterOrEqual"
+        return mp
+
+    @staticmethod
+    def line(c, shapes=None):
+        sh = shapes or {}
+        ilq = 1 if c["miss"] in ("il_q", "il_both") else 0
+        ilk = 1 if c["miss"] == "il_both" else 0
+        return " ".join(["gqa", f"query={dims_str(sh.get('query'))}", f"key={dims_str(sh.get('key'))}",
+                         f"value={dims_str(sh.get('value'))}", f"past_key={dims_str(sh.get('past_key'))}",
+                         f"past_value={dims_str(sh.get('past_value'))}", f"q4={dims_str(sh.get('query_BSHDh'))}",
+                         f"k4={dims_str(sh.get('key_BSHkvDh'))}", f"ilq={ilq}", f"ilk={ilk}",
+                         f"mask_ok={b(c['miss'] != 'mask_op')}"])
+
+    @staticmethod
+    def fuse(model):
+        from onnxscript.optimizer import optimize
+        from onnxscript.rewriter.ort_fusions.gqa import fuse_gqa
+        from onnxscript.rewriter.ort_fusions.sdpa import fuse_sdpa
+
+        optimize(model)
+        c1 = fuse_sdpa(model)
+        c2 = fuse_gqa(model)
+        return f"{c1}/{c2}"
+
+    @staticmethod
+    def post(model):
+        from onnxscript.rewriter.ort_fusions.sdpa_via_mha import replace_sdpa_by_mha
+
+        replace_sdpa_by_mha(model)
+
+    @staticmethod
+    def feeds(c, rng):
+        S, P, Dh, H, Hkv = c["S"], c["P"], c["Dh"], c["H"], c["Hkv"]
+        f = lambda *sh: rng.random(sh).astype(np.float32)
+        return {"query": f(1, S, Dh * H), "key": f(1, S, Dh * Hkv), "value": f(1, S, Dh * Hkv),
+                "past_key": f(1, Hkv, P, Dh), "past_value": f(1, Hkv, P, Dh), "cos": f(S + P, Dh // 2),
+                "sin": f(S + P, Dh // 2)}
+
+    @staticmethod
+    def out_dt(c):
+        return "f32"
+
+
+# =========================================================================== packed QKV for GQA
+
+
+class Pqkv:
+    name = "pqkv"
+    ops = {"GroupQueryAttention"}
+
+    @staticmethod
+    def gen(rng):
+        Hkv = rng.choice([1, 2])
+        H = Hkv * rng.choice([1, 2, 4])
+        return {"fam": "pqkv", "S": rng.choice([1, 2, 3]), "P": rng.choice([1, 2, 4]), "Dh": rng.choice([16, 16, 32, 8]),
+                "H": H, "Hkv": Hkv, "end3": rng.choice(["exact", "max"]), "il": rng.choice([0, 0, 1]),
+                "miss": rng.choice(["none"] * 6 + ["start1", "end1", "gap", "extra", "symD", "axis"])}
+
+    @staticmethod
+    def bounds(c):
+        Dh, H, Hkv = c["Dh"], c["H"], c["Hkv"]
+        qh, kvh = Dh * H, Dh * Hkv
+        hidden = qh + 2 * kvh + (1 if c["miss"] == "extra" else 0)
+        s1, e1, s2, e2, s3 = 0, qh, qh, qh + kvh, qh + kvh
+        e3 = hidden if c["end3"] == "exact" else I64MAX
+        if c["miss"] == "start1":
+            s1 = 1
+        if c["miss"] == "end1":
+            e1 = qh - 1
+        if c["miss"] == "gap":
+            s3 = qh + kvh + 1
+        if c["miss"] == "extra":
+            e3 = I64MAX
+        return hidden, [s1, e1, s2, e2, s3, e3]
+
+    @staticmethod
+    def valid(c):
+        return c["miss"] in ("none", "symD", "axis") or True
+
+    @staticmethod
+    def build(c):
+        g = G()
+        S, P, Dh, H, Hkv = c["S"], c["P"], c["Dh"], c["H"], c["Hkv"]
+        hidden, (s1, e1, s2, e2, s3, e3) = Pqkv.bounds(c)
+        x = g.inp("packed", "f32", [1, S, "D" if c["miss"] == "symD" else hidden])
+        pk = g.inp("past_key", "f32", [1, Hkv, P, Dh])
+        pv = g.inp("past_value", "f32", [1, Hkv, P, Dh])
+        cos = g.inp("cos", "f32", [S + P, Dh // 2])
+        sin = g.inp("sin", "f32", [S + P, Dh // 2])
+        i64 = lambda v: g.const(np.array(v, dtype=np.int64))
+        ax = [1] if c["miss"] == "axis" else [2]
+        q = g.op("Slice", x, i64([s1]), i64([e1]), i64(ax), i64([1]), name="q_s")
+        k = g.op("Slice", x, i64([s2]), i64([e2]), i64(ax), i64([1]), name="k_s")
+        v = g.op("Slice", x, i64([s3]), i64([e3]), i64(ax), i64([1]), name="v_s")
+        seqlens = g.const(np.array([S + P - 1], dtype=np.int32))
+        total = g.const(np.array(S + P, dtype=np.int32))
+        outs = g.op("GroupQueryAttention", q, k, v, pk, pv, seqlens, total, cos, sin, domain="com.microsoft",
+                    outs=["out", "present_key", "present_value"], num_heads=H, kv_num_heads=Hkv, do_rotary=1,
+                    rotary_interleaved=c["il"])
+        for o in ("out", "present_key", "present_value"):
+            g.out(o, "f32", None)
+        return g.model()
+
+    @staticmethod
+    def line(c, shapes=None):
+        sh = shapes or {}
+        hidden, bs = Pqkv.bounds(c)
+        return " ".join(["pqkv", f"packed={dims_str(sh.get('packed'))}", f"q_s={dims_str(sh.get('q_s'))}",
+                         f"k_s={dims_str(sh.get('k_s'))}", f"v_s={dims_str(sh.get('v_s'))}", f"h={c['H']}",
+                         f"hkv={c['Hkv']}", f"il={c['il']}", "sl=" + ",".join(map(str, bs)),
+                         f"axis_ok={b(c['miss'] != 'axis')}"])
+
+    @staticmethod
+    def fuse(model):
+        from onnxscript.rewriter.ort_fusions.gqa_packed_qkv import fuse_qkv_gqa
+
+        return fuse_qkv_gqa(model)
+
+    @staticmethod
+    def feeds(c, rng):
+        S, P, Dh, H, Hkv = c["S"], c["P"], c["Dh"], c["H"], c["Hkv"]
+        hidden, _ = Pqkv.bounds(c)
+        f = lambda *sh: rng.random(sh).astype(np.float32)
+        return {"packed": f(1, S, hidden), "past_key": f(1, Hkv, P, Dh), "past_value": f(1, Hkv, P, Dh),
+                "cos": f(S + P, Dh // 2), "sin": f(S + P, Dh // 2)}
+
+    @staticmethod
+    def out_dt(c):
+        return "f32"
+
+
+# =========================================================================== mha_scale / mha_bias on a contrib MHA node
+
+
+class Mhab:
+    """com.microsoft.MultiHeadAttention whose q/k/v inputs are `Add(matmul, bias)` and whose query is pre-scaled:
+    fuse_mha_scale then fuse_mha_bias (the order of fuse_xformers)."""
+
+    name = "mhab"
+    ops = {"MultiHeadAttention"}
+
+    @staticmethod
+    def gen(rng):
+        H = rng.choice([1, 2])
+        Dh = rng.choice([2, 4])
+        return {"fam": "mhab", "B": rng.choice([1, 2]), "S": rng.choice([1, 3]), "Skv": rng.choice([2, 3]), "H": H, "Dh": Dh,
+                "qb": rng.random() < 0.6, "kb": rng.random() < 0.5, "vb": rng.random() < 0.5,
+                "bias_first": rng.random() < 0.1, "qb_shape": rng.choice(["D"] * 6 + ["BSD", "1"]),
+                "pre_scale": rng.choice([None, None, 0.5, 2.0]), "scale_const": rng.random() < 0.9,
+                "attr_scale": rng.choice([None, None, 0.25]), "sym": rng.random() < 0.2,
+                "dt": rng.choice(["f32", "f32", "f32", "f64"]), "mask": rng.random() < 0.3}
+
+    @staticmethod
+    def build(c):
+        g = G()
+        B, S, Skv, H, Dh = c["B"], c["S"], c["Skv"], c["H"], c["Dh"]
+        D = H * Dh
+        dt = c["dt"]
+        Bs = "B" if c["sym"] else B
+        q = g.inp("qm", dt, [Bs, S, D])
+        k = g.inp("km", dt, [Bs, Skv, D])
+        v = g.inp("vm", dt, [Bs, Skv, D])
+
+        def addb(x, name, on, shape):
+            if not on:
+                return x
+            bsh = {"D": [D], "BSD": [B, S, D], "1": [1]}[shape]
+            bv = g.inp(name, dt, bsh)
+            return g.op("Add", bv, x) if c["bias_first"] else g.op("Add", x, bv)
+
+        qq = addb(q, "qbias", c["qb"], c["qb_shape"])
+        kk = addb(k, "kbias", c["kb"], "D")
+        vv = addb(v, "vbias", c["vb"], "D")
+        if c["pre_scale"] is not None:
+            sc = g.const(np.array(c["pre_scale"], dtype=NP[dt])) if c["scale_const"] else g.inp("sc", dt, [])
+            qq = g.op("Mul", qq, sc)
+        ins = [qq, kk, vv]
+        if c["mask"]:
+            m = g.inp("mask", dt, [1, 1, S, Skv])
+            ins += [None, None, m]
+        g.op("MultiHeadAttention", *ins, domain="com.microsoft", name="out", num_heads=H, scale=c["attr_scale"])
+        g.out("out", dt, None)
+        return g.model()
+
+    @staticmethod
+    def valid(c):
+        return True
+
+    @staticmethod
+    def line(c, shapes=None):
+        sh = shapes or {}
+        return " ".join(["mhab", f"qm={dims_str(sh.get('qm'))}", f"km={dims_str(sh.get('km'))}", f"vm={dims_str(sh.get('vm'))}",
+                         f"qbias={dims_str(sh.get('qbias')) if c['qb'] else 'absent'}",
+                         f"dt={DTNUM[c['dt']]}", f"qb={b(c['qb'])}", f"kb={b(c['kb'])}", f"vb={b(c['vb'])}",
+                         f"bias_first={b(c['bias_first'])}", f"heads={c['H']}",
+                         "pre=" + ("none" if c["pre_scale"] is None else fbits(float(np.asarray(c["pre_scale"], dtype=NP[c["dt"]])))),
+                         f"pre_const={b(c['scale_const'])}",
+                         "ascale=" + ("none" if c["attr_scale"] is None else fbits(f32(c["attr_scale"]))),
+                         f"mask={b(c['mask'])}"])
+
+    @staticmethod
+    def fuse(model):
+        from onnxscript.rewriter.ort_fusions.mha_bias import fuse_mha_bias
+        from onnxscript.rewriter.ort_fusions.mha_scale import fuse_mha_scale
+
+        c1 = fuse_mha_scale(model)
+        c2 = fuse_mha_bias(model)
+        return f"{c1}/{c2}"
+
+    @staticmethod
+    def feeds(c, rng):
+        B, S, Skv, H, Dh = c["B"], c["S"], c["Skv"], c["H"], c["Dh"]
+        D = H * Dh
+        dt = c["dt"]
+        f = {"qm": rand_arr(rng, [B, S, D], dt), "km": rand_arr(rng, [B, Skv, D], dt), "vm": rand_arr(rng, [B, Skv, D], dt),
+             "qbias": rand_arr(rng, {"D": [D], "BSD": [B, S, D], "1": [1]}[c["qb_shape"]], dt),
+             "kbias": rand_arr(rng, [D], dt), "vbias": rand_arr(rng, [D], dt), "mask": rand_arr(rng, [1, 1, S, Skv], dt)}
+        if c["pre_scale"] is not None:
+            f["sc"] = np.array(c["pre_scale"], dtype=NP[dt])
+        return f
+
+    @staticmethod
+    def out_dt(c):
+        return "f32"
+
+
+FAMILIES = {f.name: f for f in [Rms, Skip, Gelu, BiasGelu, Softmax, Fmm, Rope, Sdpa, Mha, I2g, Attn, Gqa, Pqkv, Mhab]}
